@@ -843,6 +843,7 @@ func TestVerifC20(t *testing.T) {
 	phase("fault_in_recreate")
 	c20AccountKey(t, o, ctx, ca)
 	c20TwoCAs(t, o, ctx, ca)
+	c20RefusedOrder(t, o, ctx, ca)
 	phase("key_and_two_cas")
 	c20URLs(t, o, rng)
 	phase("urls")
@@ -913,6 +914,82 @@ func c20AccountKey(t *testing.T, o *vOut, ctx context.Context, ca *vCA) {
 }
 
 // ---------------------------------------------------------------- production CA + test CA (D14)
+
+// A CA that refuses an ORDER of an account it knows perfectly well (unauthorized, rateLimited,
+// rejectedIdentifier …) has said nothing about the account: it stays in storage as it is, it is
+// not registered again, later orders use it.
+func c20RefusedOrder(t *testing.T, o *vOut, ctx context.Context, ca *vCA) {
+	for _, problem := range []string{"unauthorized", "rateLimited", "rejectedIdentifier", "serverInternal"} {
+		c20Reset()
+		srv := vNewACME("c20ref", ca)
+		srv.Validation = vACMEPreValid
+		mem := vNewMem()
+		cache, cfg := vNewCfg(mem, nil)
+		iss := srv.Issuer(cfg, ACMEIssuer{Email: "refused@c20.example", Agreed: true})
+		iss.TestCA = ""
+		cfg.Issuers = []Issuer{iss}
+		issue := func(name string) (err error) {
+			defer func() {
+				if r := recover(); r != nil {
+					err = fmt.Errorf("panic: %v", r)
+				}
+			}()
+			csr, _ := cfg.generateCSR(c20KeyPool, []string{name}, false)
+			attempt := 0
+			_, err = iss.Issue(context.WithValue(ctx, AttemptsCtxKey, &attempt), csr)
+			return err
+		}
+		if err := issue("a.refused.c20.example"); err != nil {
+			t.Fatalf("refused order: first issuance: %v", err)
+		}
+		acct := map[string]string{}
+		for k, v := range mem.Snapshot() {
+			if c20Class(k) != "" {
+				acct[k] = string(v)
+			}
+		}
+		regs := len(srv.Registrations())
+		refuse := true
+		srv.OnRequest = func(ep string, _ *http.Request) error {
+			if ep == "newOrder" && refuse {
+				refuse = false
+				return &vACMEProblem{Status: 403, Type: problem, Detail: "verif: the CA refuses this order"}
+			}
+			return nil
+		}
+		err1 := issue("b.refused.c20.example")
+		err2 := issue("c.refused.c20.example")
+		srv.OnRequest = nil
+		replay := map[string]any{"problem": problem, "refused_order_error": fmt.Sprint(err1), "next_order_error": fmt.Sprint(err2),
+			"registrations_before": regs, "registrations_after": len(srv.Registrations())}
+		changed := false
+		now := mem.Snapshot()
+		for k, v := range acct {
+			if string(now[k]) != v {
+				changed = true
+			}
+		}
+		if changed {
+			o.Mon("C20 stored-account-changed-after-refused-order", replay)
+		}
+		if n := srv.Registrations(); len(n) != regs {
+			created := 0
+			for _, r := range n[regs:] {
+				if r.Created {
+					created++
+				}
+			}
+			if created > 0 {
+				o.Mon("C20 account-registered-again-after-refused-order", replay)
+			}
+		}
+		if err2 != nil {
+			o.Mon("C20 issuance-failed-after-refused-order", replay)
+		}
+		cache.Stop()
+		o.Stat("refused_order_scenarios", 1)
+	}
+}
 
 func c20TwoCAs(t *testing.T, o *vOut, ctx context.Context, ca *vCA) {
 	c20Reset()
